@@ -435,6 +435,12 @@ def switchRingRef (res a : List W) : Outcome (List W) :=
   else
     .ok (scatterStep (nOut / nIn) (List.replicate nOut 0#64) a)
 
+/-- one strided store of the up path: `*p = x_i` at `res[i * gap_out]` -/
+def upStore (a : List W) (gap : Nat) (r : List W) (i : Nat) : List W :=
+  match a[i]? with
+  | some v => r.set (i * gap) v
+  | none => r
+
 /-- `znx_switch_ring_avx(res, a)` -/
 def switchRingAvx (res a : List W) : Outcome (List W) :=
   let nIn := a.length
@@ -456,9 +462,12 @@ def switchRingAvx (res a : List W) : Outcome (List W) :=
     let gap := nOut / nIn
     let idx := (List.range ((nIn + 3) / 4)).flatMap (fun j => [4 * j, 4 * j + 1, 4 * j + 2, 4 * j + 3])
     if idx.any (fun i => i ≥ nIn || i * gap ≥ nOut) then .panic "bounds"
-    else .ok (idx.foldl (fun r i => match a[i]? with
-      | some v => r.set (i * gap) v
-      | none => r) (List.replicate nOut 0#64))
+    else .ok (idx.foldl (upStore a gap) (List.replicate nOut 0#64))
+
+/-- loop body of `znx_automorphism_ref`: `k = (k + p_2n) & mask; if k < n { res[k] = a_i } else { res[k-n] = -a_i }` -/
+def autoRefStep (n pp mask : Nat) (s : Nat × List W) (ai : W) : Nat × List W :=
+  let k := (s.1 + pp) &&& mask
+  (k, if k < n then s.2.set k ai else s.2.set (k - n) (-ai))
 
 /-- `znx_automorphism_ref(p, res, a)`: scatter with a running index `k += p_2n (mod 2n)` -/
 def automorphismRef (p : Int) (res a : List W) : Outcome (List W) :=
@@ -469,9 +478,7 @@ def automorphismRef (p : Int) (res a : List W) : Outcome (List W) :=
     let mask := 2 * n - 1
     let pp := ((BitVec.ofInt 64 p) &&& (BitVec.ofNat 64 mask)).toNat
     let r0 := res.set 0 (a.getD 0 0#64)
-    let st := (a.drop 1).foldl (fun (s : Nat × List W) ai =>
-      let k := (s.1 + pp) &&& mask
-      (k, if k < n then s.2.set k ai else s.2.set (k - n) (-ai))) (0, r0)
+    let st := (a.drop 1).foldl (autoRefStep n pp mask) (0, r0)
     .ok st.2
 
 /-- `inv_mod_pow2(p, bits)`: Hensel lifting, `i = 1, 2, 4, … < bits`, wrapping `usize` arithmetic -/
@@ -481,6 +488,19 @@ def invModPow2 (p : W) (bits : Nat) : W :=
     | 0 => x
     | fuel + 1 => if i < bits then go fuel (i <<< 1) (x * (2#64 - p * x)) else x
   (go 7 1 1#64) &&& ((1#64 <<< bits) - 1#64)
+
+/-- one lane of the gather: `idx = t & (n−1)`, `sign_mask = cmpgt(t, n−1)`, `vals = a[idx]`,
+`out = (vals ^ sign_mask) − sign_mask`; `none` = a gather outside `a` -/
+def autoLane (a : List W) (n t : Nat) : Option W :=
+  let idx := t &&& (n - 1)
+  let signMask := cmpgt_epi64 (BitVec.ofNat 64 t) (BitVec.ofNat 64 (n - 1))
+  (a[idx]?).map (fun v => sub_epi64 (xor_si256 v signMask) signMask)
+
+/-- one iteration of the vector loop: four lanes `t = (t_base + lane_offset) & mask_2n`, then
+`t_base = (t_base + step) & mask_2n`; state = `(t_base, lanes stored so far)` -/
+def autoStep (a : List W) (n mask2n step : Nat) (off : List Nat) (s : Nat × List (Option W)) (_ : Nat) :
+    Nat × List (Option W) :=
+  ((s.1 + step) &&& mask2n, s.2 ++ off.map (fun o => autoLane a n ((s.1 + o) &&& mask2n)))
 
 /-- `znx_automorphism_avx(p, res, a)`: gather with the inverse exponent -/
 def automorphismAvx (p : Int) (res a : List W) : Outcome (List W) :=
@@ -495,20 +515,12 @@ def automorphismAvx (p : Int) (res a : List W) : Outcome (List W) :=
     let span := n >>> 2
     let bits := Nat.log2 twoN                          -- trailing_zeros of a power of two
     let mask2n := twoN - 1
-    let mask1n := n - 1
     let pw : W := BitVec.ofInt 64 p
     let p2 : W := ((pw &&& BitVec.ofNat 64 mask2n) + BitVec.ofNat 64 twoN) &&& BitVec.ofNat 64 mask2n
     let inv := (invModPow2 p2 bits).toNat
     let off : List Nat := [0, inv, (inv * 2) &&& mask2n, (inv * 3) &&& mask2n]
     let step := (inv <<< 2) &&& mask2n
-    let st := (List.range span).foldl (fun (s : Nat × List (Option W)) _ =>
-      let tBase := s.1
-      let lanes := off.map (fun o =>
-        let t := (tBase + o) &&& mask2n
-        let idx := t &&& mask1n
-        let signMask := cmpgt_epi64 (BitVec.ofNat 64 t) (BitVec.ofNat 64 (n - 1))
-        (a[idx]?).map (fun v => sub_epi64 (xor_si256 v signMask) signMask))
-      ((tBase + step) &&& mask2n, s.2 ++ lanes)) (0, [])
+    let st := (List.range span).foldl (autoStep a n mask2n step off) (0, [])
     let out := st.2
     if out.any Option.isNone then .panic "bounds" else .ok (out.filterMap id)
 
